@@ -321,11 +321,8 @@ func TestVerifC13(t *testing.T) {
 	httpAddr := fmt.Sprintf("127.0.0.1:%d", server.HttpPort())
 	httpsAddr := fmt.Sprintf("127.0.0.1:%d", server.HttpsPort())
 
-	for i, c := range cases {
-		if vStr(c["kind"]) == "config" {
-			out.emit(map[string]any{"i": i, "kind": "config"})
-			continue
-		}
+	// one exchange: raw request in, what the client read back
+	exchange := func(i int, c map[string]any) map[string]any {
 		id := vInt(c["id"])
 		res := map[string]any{"i": i, "kind": "req", "id": id}
 		func() {
@@ -375,6 +372,43 @@ func TestVerifC13(t *testing.T) {
 			res["resp_te"] = resp.TransferEncoding
 			res["resp_uncompressed"] = resp.Uncompressed
 		}()
+		return res
+	}
+	// cases marked "par": g (g > 0) are sent CONCURRENTLY with the other cases of group g (requests in flight to one target at
+	// the same time, each with its own path, query and headers); their results are kept and emitted in case order below
+	parRes := map[int]map[string]any{}
+	groups := map[int64][]int{}
+	for i, c := range cases {
+		if g := vInt(c["par"]); g > 0 && vStr(c["kind"]) == "req" {
+			groups[g] = append(groups[g], i)
+		}
+	}
+	for _, idxs := range groups {
+		var wg sync.WaitGroup
+		var pm sync.Mutex
+		for _, i := range idxs {
+			wg.Add(1)
+			go func(i int) {
+				defer wg.Done()
+				r := exchange(i, cases[i])
+				pm.Lock()
+				parRes[i] = r
+				pm.Unlock()
+			}(i)
+		}
+		wg.Wait()
+	}
+
+	for i, c := range cases {
+		if vStr(c["kind"]) == "config" {
+			out.emit(map[string]any{"i": i, "kind": "config"})
+			continue
+		}
+		id := vInt(c["id"])
+		res, done := parRes[i]
+		if !done {
+			res = exchange(i, c)
+		}
 		mu.Lock()
 		r := recv[id]
 		mu.Unlock()
